@@ -158,7 +158,7 @@ def load_known():
 # Kani
 
 CHECK_RE = re.compile(
-    r"^Check \d+: (?P<name>\S+)\n\s+- Status: (?P<status>\w+)\n\s+- Description: \"(?P<desc>.*)\"\n(?:\s+- Location: (?P<loc>.*)\n)?",
+    r"^Check \d+: (?P<name>[^\n]+)\n\s+- Status: (?P<status>\w+)\n\s+- Description: \"(?P<desc>.*)\"\n(?:\s+- Location: (?P<loc>.*)\n)?",
     re.M)
 
 
